@@ -1,5 +1,6 @@
 import Mathlib.Algebra.Order.Field.Rat
 import TapkeeVerif.Proofs.TsneBasic
+import TapkeeVerif.Proofs.TsneVp
 import TapkeeVerif.Proofs.QuadTreeForces
 /-!
 # C17 — t-SNE: calibrated similarities from true neighbours, true KL gradient
@@ -120,11 +121,36 @@ theorem sqDistance_not_metric :
   revert this
   decide +kernel
 
-/- FULL STATEMENT (`bh_neighbours_true`; C02 proves the analogue for tapkee's own VP-tree), not proved for this class:
-     (∀ a b c, dist a c ≤ dist a b + dist b c) → dist symmetric, zero on the diagonal →
-     the K+1 search on any tree `vpBuild` can produce returns the K+1 smallest distances.
-   The check replays the search on every dumped tree and compares the returned items with brute force (exact, on
-   squared distances); the old failing witness is kept below. -/
+/-- **`bh_neighbours_true`** — for every (pseudo-)metric on the items (coincident samples allowed), every tree with the
+    ball invariant (`TInv`: inner subtree within `threshold` of the vantage point, outer subtree at least `threshold`
+    away — what `buildFromPoints` produces for any vantage stream and any `nth_element` outcome, and what the
+    correspondence run checks on every dumped tree), every `K` with `K + 1 ≤ N` and every query that is one of the
+    items, the `K + 1` search of `computeGaussianPerplexity` leaves in the heap `K + 1` nearest items of the query:
+    pairwise different positions of the tree, none of the other items nearer than any of them.
+    `tsne::VpTree::search` is shown to coincide with the search C02 proves exact (`Proofs/TsneVp.lean: vpSearch_eq`;
+    the classes differ only in a guard that is vacuous for non-negative distances). -/
+theorem bh_neighbours_true {K : Type} [Field K] [LinearOrder K] [IsStrictOrderedRing K]
+    (distf : List K → List K → K) (items : Nat → List K)
+    (hm : VpTree.IsMetric (posDist distf items)) (hd : ∀ a b, 0 ≤ distf a b)
+    (t : VpNode K) (hT : VpTree.TInv (posDist distf items) (toTree t)) (hnd : (toTree t).points.Nodup)
+    (Kn : Nat) (hkN : Kn + 1 ≤ (toTree t).points.length) (q : Nat) :
+    Knn.IsKNearest (posDist distf items) q (toTree t).points (Kn + 1)
+      ((vpSearch distf items (items q) (Kn + 1) t ⟨none, []⟩).heap.map (·.1)) :=
+  vpSearch_nearest distf items hm hd t hT hnd (Kn + 1) (by omega) hkN q
+
+/-! non-vacuity: two items on a line under `|a − b|` -/
+def dist1 (a b : List Rat) : Rat := |a.headD 0 - b.headD 0|
+def items1 : Nat → List Rat := fun p => [(p : Rat)]
+def tree1 : VpNode Rat := .node 0 1 .nil (.node 1 0 .nil .nil)
+
+example : VpTree.IsMetric (posDist dist1 items1) :=
+  ⟨fun x => by simp [posDist, dist1], fun x y => by simp only [posDist, dist1]; exact abs_sub_comm _ _,
+   fun x y z => by simp only [posDist, dist1]; exact abs_sub_le _ _ _⟩
+example : ∀ a b, 0 ≤ dist1 a b := fun a b => abs_nonneg _
+example : VpTree.TInv (posDist dist1 items1) (toTree tree1) := by
+  simp [tree1, toTree, VpTree.TInv, VpTree.Tree.points, posDist, dist1, items1]
+example : (toTree tree1).points.Nodup := by simp [tree1, toTree, VpTree.Tree.points]
+example : 1 + 1 ≤ (toTree tree1).points.length := by simp [tree1, toTree, VpTree.Tree.points]
 
 /-- **the two pruning rules of `search` are sound for every metric** (the step the full theorem rests on): an item `x`
     of the right subtree (`threshold ≤ d(vp,x)`) that is skipped because `d(vp,q) + τ < threshold`, and an item of the
